@@ -628,9 +628,12 @@ func (cl *compiler) compileNativeCall(key funcKey, variadic int, funcExpr ast.Ex
 		// Check that it's not a f(g()) call, where g() returns
 		// a multi-value result; we can't compile that yet.
 		if call, ok := args[0].(*ast.CallExpr); ok {
-			results := cl.ctx.Types.TypeOf(call.Fun).(*types.Signature).Results()
-			if results != nil && results.Len() > 1 {
-				panic(cl.errorf(args[0], "can't pass tuple as a func argument"))
+			// A conversion or a constant-folded builtin call has no signature.
+			if sig, ok := cl.ctx.Types.TypeOf(call.Fun).(*types.Signature); ok {
+				results := sig.Results()
+				if results != nil && results.Len() > 1 {
+					panic(cl.errorf(args[0], "can't pass tuple as a func argument"))
+				}
 			}
 		}
 	}
